@@ -89,6 +89,16 @@ H2_DESIGN = [
 ]
 
 
+H2UP_DESIGN = [{"module": "MC_H2Up", "cfg": "MC_H2Up.cfg"}]
+
+
+def _updev(dev: str, expect: str) -> Dict[str, Any]:
+    # (one configuration per invariant: with several, which one TLC reports first depends on its workers)
+    cfg = {"CreditConserved": "MC_H2Up_credit.cfg", "ReaderNeverStuck": "MC_H2Up_reader.cfg",
+           "FinalSendReturns": "MC_H2Up_final.cfg"}[expect]
+    return {"module": "MC_H2Up", "cfg": cfg, "dev": dev, "expect": expect}
+
+
 def _h2dev(dev: str, expect: str, cfg: str = "MC_H2Conn_quick.cfg") -> Dict[str, Any]:
     return {"module": "MC_H2Conn", "cfg": cfg, "dev": dev, "expect": expect}
 
@@ -99,8 +109,9 @@ PROPS["C08"] = {"monitor": "C08", "generators": [gen_h2.gen_release, gen_h2.gen_
                                _h2dev("DevResetNoRelease", "NoStuckSend")]}
 # (action coverage of the design instance is measured where the property is about that design: C06, C09)
 PROPS["C09"] = {"monitor": "C09", "generators": [gen_h2.gen_flow, gen_h2.gen_release, gen_h2.gen_h2_basic, gen_h2.gen_unusual, gen_h2.gen_priority_idle,
-                                                 from_tlc.gen_h2_from_spec, from_tlc.gen_h2_from_graph],
-                "design": [dict(H2_DESIGN[0], coverage="strict")] + H2_DESIGN[1:]}
+                                                 from_tlc.gen_h2_from_spec, from_tlc.gen_h2_from_graph, from_tlc.gen_h2up_from_graph],
+                "design": [dict(H2_DESIGN[0], coverage="strict")] + H2_DESIGN[1:] + H2UP_DESIGN,
+                "deviations": [_updev("DevNoAckGone", "CreditConserved"), _updev("DevAckBody", "CreditConserved")]}
 WS_DESIGN = [{"module": "MC_WSock", "cfg": "MC_WSock_quick.cfg", "coverage": "strict"}]
 
 
@@ -157,8 +168,18 @@ def gen_everything_else(tier, rng):
 
 PROPS["C04"]["generators"] = PROPS["C04"]["generators"] + [gen_everything_else]
 # (the WebSocket design's NoCrash is C04's statement for that stream: "no client input makes the handler raise")
-PROPS["C04"]["design"] = [{"module": "MC_WSock", "cfg": "MC_WSock_quick.cfg"}]
-PROPS["C04"]["deviations"] = [_wsdev("DevAfterClose", "NoCrash"), _wsdev("DevClosedLate", "NoCrash")]
+# the receive side of HTTP/2 (H2Up): credit for everything consumed or discarded (C01 upload-starved, C05
+# collateral), an application's final send returns (C05)
+PROPS["C01"]["design"] = PROPS["C01"]["design"] + H2UP_DESIGN
+PROPS["C01"]["deviations"] = [_updev("DevAckBody", "CreditConserved")]
+PROPS["C01"]["generators"] = PROPS["C01"]["generators"] + [from_tlc.gen_h2up_from_graph]
+PROPS["C05"]["parts"][0]["design"] = PROPS["C05"]["parts"][0]["design"] + H2UP_DESIGN
+PROPS["C05"]["parts"][0]["deviations"] = [_updev("CodeDev", "FinalSendReturns"), _updev("DevNoAckGone", "CreditConserved")]
+PROPS["C04"]["design"] = [{"module": "MC_WSock", "cfg": "MC_WSock_quick.cfg"}] + H2UP_DESIGN
+# (... and H2Up's ReaderNeverStuck is "a request on one stream affects at most its own stream" for the one reader
+#  all streams share; CodeDev is the behaviour of the pinned code, finding F06c)
+PROPS["C04"]["deviations"] = [_wsdev("DevAfterClose", "NoCrash"), _wsdev("DevClosedLate", "NoCrash"),
+                              _updev("CodeDev", "ReaderNeverStuck")]
 PROPS["C17"] = {"monitor": "C17", "adapter": "c17",
                 "design": [{"module": "Wsgi", "cfg": "MC_Wsgi.cfg"}],
                 "technique": "TLA+ oracle (Wsgi.tla) model-checked by TLC + TLC validation of real executions of every enumerated case"}
